@@ -400,6 +400,11 @@ func runFile(c *Case) {
 			fail("stats", -1, "series %d: %d column metas, want %d", si, len(got.Stats), len(se.Cols)+1)
 			continue
 		}
+		c.St = append(c.St, nil)
+		for k := range se.Cols {
+			st := got.Stats[k]
+			c.St[si] = append(c.St[si], []uint64{st.Min, st.Max, uint64(st.MinT), uint64(st.MaxT), st.Sum, uint64(st.Count)})
+		}
 		for k, col := range se.Cols {
 			st, e := got.Stats[k], statOf(col, se.Times)
 			curStored = []uint64{st.Min, uint64(st.MinT), st.Max, uint64(st.MaxT), uint64(st.Count), st.Sum}
